@@ -33,7 +33,7 @@ func c01Sizes(tier string) (units, schemasPerUnit, docs int) {
 }
 
 // exhaustive units come after the random ones
-func c01ExhUnits(tier string) int { return len(c01SmallSchemas()) / 16 + 1 }
+func c01ExhUnits(tier string) int { return len(c01SmallSchemas())/16 + 1 }
 
 func c01Verdict(o lib.Obs) string { return o.Verdict() }
 
@@ -76,8 +76,8 @@ func c01Compare(c *mon.Ctx, s *model.Schema, text string, built *builtSchema, v 
 
 // builtSchema is one real schema object reused for many documents.
 type builtSchema struct {
-	sp lib.Spec
-	ok bool
+	sp       lib.Spec
+	ok       bool
 	validate func(doc string) lib.Obs
 	check    lib.Obs
 }
